@@ -3,6 +3,7 @@ package compose
 import (
 	"context"
 	"errors"
+	"io"
 	"sync"
 
 	"github.com/cloudwego/eino/callbacks"
@@ -602,4 +603,60 @@ func VerifC10ToolCalls() {
 		vassert(c10Count(evs, h, "start", "TOOLS") == 1 && c10Count(evs, h, "end", "TOOLS") == 1, "handler "+h+": one start and one end for the tools node")
 		vassert(c10Count(evs, h, "start", "G") == 1 && c10Count(evs, h, "end", "G") == 1, "handler "+h+": one start and one end for the graph")
 	}
+}
+
+// A node whose body panics (or fails) is an execution unit like any other: its handlers hear one start and one end
+// (the error), and so do the graph-level handlers, in Invoke and Stream
+func VerifC10FailingNode() {
+	ctx := context.Background()
+	vcfg("fifo", 1)
+	vcfg("selectfirst", 1)
+	var evs []c10Ev
+	how := vchoose("how", 2) // 0 returns an error, 1 panics
+	native := vchoose("native", 2)
+	var node *Lambda
+	if native == 0 {
+		node = InvokableLambda(func(ctx context.Context, in map[string]any) (map[string]any, error) {
+			if how == 1 {
+				panic("c10 node panic")
+			}
+			return nil, c10Err
+		})
+	} else {
+		node = StreamableLambda(func(ctx context.Context, in map[string]any) (*schema.StreamReader[map[string]any], error) {
+			if how == 1 {
+				panic("c10 node panic")
+			}
+			return nil, c10Err
+		})
+	}
+	g := NewGraph[map[string]any, map[string]any]()
+	_ = g.AddLambdaNode("a", node, WithNodeName("A"))
+	_ = g.AddEdge(START, "a")
+	_ = g.AddEdge("a", END)
+	r, err := g.Compile(ctx, WithGraphName("G"))
+	vassert(err == nil, "graph compiles")
+	opt := WithCallbacks(&c10Rec{id: "h", evs: &evs})
+	var rerr error
+	if vchoose("stream", 2) == 1 {
+		sr, e := r.Stream(ctx, map[string]any{"in": 1}, opt)
+		rerr = e
+		if e == nil {
+			for i := 0; i < 4; i++ {
+				if _, e := sr.Recv(); e != nil {
+					if e != io.EOF {
+						rerr = e
+					}
+					break
+				}
+			}
+			sr.Close()
+		}
+	} else {
+		_, rerr = r.Invoke(ctx, map[string]any{"in": 1}, opt)
+	}
+	vquiesce()
+	vassert(rerr != nil, "the run fails")
+	vassert(c10Count(evs, "h", "start", "A") == 1 && c10Count(evs, "h", "end", "A") == 1, "a failing or panicking node: exactly one start and one end (error) for the node")
+	vassert(c10Count(evs, "h", "start", "G") == 1 && c10Count(evs, "h", "end", "G") == 1, "a failing or panicking node: exactly one start and one end (error) for the graph")
 }
